@@ -59,4 +59,16 @@ theorem src_listeners_called_unlocked :
     hasInfix [isCall "m.mu.Unlock", (· == .loop ["range", "fns"] []), isCall "fn", (· == .done), isCall "m.mu.Lock"]
       skel_AddValidatedV2Blocks = true := by decide
 
+/-- the update stream replays STORED supplements: `applyTip` records a first-applied block
+(`AddBlock`) only after the configured order of its expiring contracts has been imposed on the
+supplement (`overwriteExpirations`), so the stored supplement is the one the block was applied with,
+and it is the same call in both branches (seeded C04-r12m1 stores the block before the reordering:
+with `WithExpiringContractOrder` the missed-proof outputs of the replayed update get permuted leaf
+indices) -/
+theorem src_applyTip_stores_the_supplement_it_applies :
+    firstBefore (isCall "m.overwriteExpirations") (isCall "m.store.AddBlock") skel_applyTip = true ∧
+    firstBefore (isCall "m.overwriteExpirations") (isCall "consensus.ApplyBlock") skel_applyTip = true ∧
+    (callNames skel_applyTip).count "m.overwriteExpirations" = 2 ∧
+    (callNames skel_applyTip).count "m.store.AddBlock" = 1 := by decide
+
 end Verif.C04Src
